@@ -125,16 +125,10 @@ def project(doc) -> dict:
   body = doc.get_body()
   pidx = 0
 
-  def unit(el, p, base_begin, reg, align):
-    b = el.get_begin()
-    e = el.get_end()
-    if b is not None and base_begin is not None:
-      b = b + base_begin
-    if e is not None and base_begin is not None:
-      e = e + base_begin
-    ow, on, od = _split(b)
-    ew, en, ed = _split(e)
-    u = {"p": p, "ow": ow, "on": on, "od": od, "ew": ew, "en": en, "ed": ed, "cells": _cells(el), "align": align}
+  def unit(el, p, reg, align, cells, g0):
+    ow, on, od = _split(el.get_begin())
+    ew, en, ed = _split(el.get_end())
+    u = {"p": p, "ow": ow, "on": on, "od": od, "ew": ew, "en": en, "ed": ed, "cells": cells, "g0": g0, "align": align}
     u.update(reg)
     subs.append(u)
 
@@ -150,10 +144,24 @@ def project(doc) -> dict:
         reg = _region(p)
         timed_children = [c for c in p if isinstance(c, model.Span) and (c.get_begin() is not None or c.get_end() is not None)]
         if p.get_begin() is not None or p.get_end() is not None or not timed_children:
-          unit(p, pidx, None, reg, align)
+          unit(p, pidx, reg, align, _cells(p), 0)
         else:
-          for c in timed_children:
-            unit(c, pidx, None, reg, align)
+          # members of a cumulative set: one walk over the paragraph, cut at the timed spans; g0 = what separates the
+          # first character of a member from the previous member's text (3 = a line break)
+          w = _Cells()
+          for c in p:
+            if isinstance(c, model.Br):
+              w.gap = 3
+            elif c in timed_children:
+              start = len(w.cells)
+              w.walk([c], (-1, -1, 0, 0))
+              mine = [dict(x) for x in w.cells[start:]]
+              g0 = mine[0]["g"] if mine and start > 0 else 0
+              if mine:
+                mine[0]["g"] = 0
+              unit(c, pidx, reg, align, mine, g0)
+            else:
+              w.walk([c], (-1, -1, 0, 0))
   aa = doc.get_active_area()
   if aa is None:
     area = {"l": 0, "t": 0, "r": 100000, "b": 100000}
